@@ -11,6 +11,12 @@
 #include "vh_noinline_end.h"
 using namespace quill;
 using PF = PatternFormatter;
+#ifndef N1
+  #define N1 2
+#endif
+#ifndef SECOND_HAS
+  #define SECOND_HAS false
+#endif
 using Val = fmtquill::detail::value<fmtquill::format_context>;
 
 union PSlot { PF p; PSlot() {} ~PSlot() {} };
@@ -85,14 +91,14 @@ extern "C" void h_slots()
   new (&g_na.e[0].first) std::string(); new (&g_na.e[0].second) std::string(); new (&g_na.e[1].first) std::string(); new (&g_na.e[1].second) std::string();
   set1(g_na.e[0].first, 'k'); set1(g_na.e[0].second, 'v'); set1(g_na.e[1].first, 'q'); set1(g_na.e[1].second, 'w');
   std::vector<std::pair<std::string, std::string>> na;
-  uint32_t n1 = static_cast<uint32_t>(vnd_range(0, 2));                       // first statement: 0, 1 or 2 named arguments
+  uint32_t const n1 = N1;                                                     // first statement: N1 named arguments (concrete per query)
   na._M_impl._M_start = g_na.e; na._M_impl._M_finish = g_na.e + n1; na._M_impl._M_end_of_storage = g_na.e + 2;
-  bool second_has = vnd_bool();
+  bool const second_has = SECOND_HAS;
   one_call(p, mask, 111, md1, &na, "11", "tA", "900", "lgA", "INFO", "I", "hello", n1 == 0 ? 0 : n1 == 1 ? 4 : 10);
   // the next statement through the same formatter: other values everywhere; named args absent (never-used slot: null) or one pair
   na._M_impl._M_finish = g_na.e + 1;
   one_call(p, mask, 222, md2, second_has ? &na : nullptr, "22", "tB", "901", "lgB", "ERROR", "E", "bye", second_has ? 4 : 0);
   vobs(mask); vobs(n1); vobs(second_has);
-  VWITNESS(mask == 0xffff && n1 == 2 && !second_has);
+  VWITNESS(mask == 0xffff);
   na._M_impl._M_start = nullptr; na._M_impl._M_finish = nullptr; na._M_impl._M_end_of_storage = nullptr;
 }
